@@ -7,6 +7,8 @@ CONSTANTS
   MaxTs = 2
   MaxRepl = 2
   MaxWrites = 2
+  RecycleAge = 0
+  Window = 0
   MergeRestamp = TRUE
   NoSkew = TRUE
   ArmQuota = 2
